@@ -52,7 +52,11 @@ TRUSTED = [
     "RealLike formulas are executed at Float and proved at R; rounding and the pairwise summation order of np.mean "
     "are absorbed by the tolerance 1e-9*scale",
     "the normalised spectrum power/model_fun(frequency) of identify_peaks is computed by the harness with the same "
-    "IEEE division the code uses and handed to the model as exact rationals (the model function is a table)",
+    "IEEE division the code uses and handed to the model as exact rationals (the model function is a table); a bin "
+    "whose exact quotient lies within 1e-12 (relative) of the baseline or the cut-off without being exactly on it by "
+    "exact arithmetic is not determined by the property (it depends on how the comparison is rounded): model and "
+    "oracle read it the way the implementation's answer does (inside a returned range = at/above the threshold) and "
+    "check the answer against that reading in full; exact ties (tables of ones, powers of two) stay determined",
 ]
 ASSUMPTIONS = [
     "frequencies and powers are finite doubles (no NaN/inf); model functions for identify_peaks are positive",
@@ -68,13 +72,54 @@ ASSUMPTIONS = [
 TOL = 1e-9
 
 # ------------------------------------------------------------------ implementation access
+#
+# How the harness reaches pylake (robustness against behaviour-preserving refactorings, DESIGN.md C10):
+#  * what the package exports is taken from the package: lk.calculate_power_spectrum;
+#  * PowerSpectrum has no exported name: it is imported from its documented module (docs/api.rst lists
+#    force_calibration.power_spectrum.PowerSpectrum); should that module have moved, the class is the type of what
+#    the public lk.calculate_power_spectrum returns;
+#  * injected spectra are made through the PUBLIC attributes only (frequency, power, num_points_per_block);
+#  * `_exclude_range` is an anchored mechanism without a public name: it is called directly while it is reachable.
+#    When it is gone the step goes through the public lk.calculate_power_spectrum(…, num_points_per_block=1,
+#    excluded_ranges=…) wherever the spectrum it is applied to is a function of the source data the public call can
+#    rebuild (the raw spectrum, or the raw spectrum restricted by in_range steps); anywhere else the step cannot be
+#    observed: it is answered "?" (ignored by agree/oracle/nontrivial) and the chain ends there.  The public route is
+#    ALSO tied all the time (pipeline steps with k = 1 in the random stream, small scope on integer axes);
+#  * `_fit_range` is private bookkeeping the property does not speak about: observed only while reachable (`priv`), "?"
+#    otherwise - never an implementation answer.
 
 
-def _lk():
-    from lumicks.pylake.force_calibration import power_spectrum as psm
-    from lumicks.pylake.force_calibration import power_spectrum_calibration as psc
+_reach = {}  # private name -> reachable the last time the harness reached for it (printed in the coverage)
+_cls = {}
 
-    return psm, psc
+
+def priv(obj, name, fallback="?"):
+    """a private attribute of a pylake object, observed only while it is reachable"""
+    try:
+        v = getattr(obj, name)
+    except AttributeError:
+        _reach[name] = False
+        return fallback
+    _reach[name] = True
+    return v
+
+
+def _pub():
+    import lumicks.pylake as lk
+
+    return lk
+
+
+def _PS():
+    if "ps" not in _cls:
+        try:
+            from lumicks.pylake.force_calibration.power_spectrum import PowerSpectrum
+        except ImportError:
+            with warnings.catch_warnings():
+                warnings.simplefilter("ignore")
+                PowerSpectrum = type(_pub().calculate_power_spectrum(np.arange(4.0), 1.0, fit_range=(-1.0, 1.0), num_points_per_block=1))
+        _cls["ps"] = PowerSpectrum
+    return _cls["ps"]
 
 
 def F(x):
@@ -91,18 +136,23 @@ def floatlist(a):
 
 def make_ps(case):
     """PowerSpectrum of the case's source (data driven, or injected arrays on a dummy object)."""
-    psm, _ = _lk()
     src = case["src"]
     with warnings.catch_warnings():
         warnings.simplefilter("ignore")
         if "x" in src:
-            return psm.PowerSpectrum(np.array(src["x"], dtype=float), src["fs"], window_seconds=src.get("ws"))
-        ps = psm.PowerSpectrum(np.arange(4.0), 1.0)
+            return _PS()(np.array(src["x"], dtype=float), src["fs"], window_seconds=src.get("ws"))
+        # injected arrays: the public attributes of a one-window spectrum (which has no block variance)
+        ps = _PS()(np.arange(4.0), 1.0)
         ps.frequency = np.array(src["freq"], dtype=float)
         ps.power = np.array(src["power"], dtype=float)
         ps.num_points_per_block = src.get("nppb", 1)
-        ps._fit_range = (min(src["freq"], default=0.0), max(src["freq"], default=0.0))
-        ps._variance = None
+        if not isinstance(priv(ps, "_fit_range"), str):
+            # bookkeeping kept consistent with the injected axis while it exists under this name (a name that is gone
+            # must not be created: a stale attribute would be carried along by copy() and read back as an observation)
+            try:
+                ps._fit_range = (min(src["freq"], default=0.0), max(src["freq"], default=0.0))
+            except AttributeError:  # readable but not writable any more: left as the dummy's
+                pass
         return ps
 
 
@@ -115,17 +165,88 @@ def show_psd(ps):
 
 
 def psd_of(x, fs, ws, ndim=1):
-    psm, _ = _lk()
     data = np.array(x, dtype=float)
     if ndim == 2:
         data = data.reshape(1, -1)
     with warnings.catch_warnings():
         warnings.simplefilter("ignore")
-        return psm.PowerSpectrum(data, fs, window_seconds=ws)
+        return _PS()(data, fs, window_seconds=ws)
 
 
 def psd_op(x, fs, ws, ndim=1):
     return f"c10.psd {ndim} {enc_float(fs)} {'N' if ws is None else enc_float(ws)} {floatlist(x)}"
+
+
+EPS_TIE = 1e-12  # a normalised power within this (relative) of a threshold is within rounding of it
+
+
+def _ranges_of(ans):
+    return [] if ans == "[]" else [tuple(dec_rat(v) for v in r.split(":")) for r in ans[1:-1].split(",")]
+
+
+def peaks_flat(f, p, table, baseline, cutoff, ans):
+    """The normalised spectrum power/model of an identify_peaks step as exact rationals (f, p: Fractions of the
+    implementation's doubles; ans: the implementation's answer).  It is the IEEE quotient the code computes - the
+    decisions the code takes on doubles are taken by model and oracle on the same doubles - EXCEPT at bins whose exact
+    quotient lies within EPS_TIE of a threshold without being determined by exact arithmetic (exactly on the threshold
+    with a model value that is a power of two, e.g. the tables of ones of the small scope): on which side of the
+    threshold such a bin falls depends on how the comparison is rounded (power/model >= b, power >= b*model, ...),
+    the property does not determine it.  Such a bin is put on the side the implementation's answer puts it: at or
+    above the threshold iff it lies inside a returned range (every bin when the call ran into the missing second
+    frequency); the answer is then checked against that reading in full.  Only on axes of distinct frequencies (where a
+    returned range identifies its bins); on injected axes with duplicates the plain quotient is used (and the
+    generator keeps such bins off the thresholds, peaks_table)."""
+    if len(table) != len(p):
+        return list(p)
+    pf, tab = np.array([float(v) for v in p], dtype=float), np.array(table, dtype=float)
+    with np.errstate(all="ignore"):
+        quot = pf / tab
+    plain = quot.tolist()
+    if not cutoff > baseline >= 0:
+        return plain
+    # candidates by a float pre-filter (the double quotient is within 2e-16 of the exact one), decided exactly
+    cand = np.flatnonzero((np.abs(quot - baseline) <= 4 * EPS_TIE * abs(baseline)) | (np.abs(quot - cutoff) <= 4 * EPS_TIE * abs(cutoff)))
+    if cand.size == 0 or not np.all(np.isfinite(quot)) or not np.all(np.isfinite(tab) & (tab > 0)):
+        return plain
+    B, C, eps = Fraction(baseline), Fraction(cutoff), Fraction(EPS_TIE)
+    if C - B <= 4 * eps * C:
+        return plain  # thresholds within rounding of each other: no side to follow
+    near = {}
+    for i in cand.tolist():
+        if plain[i] in (baseline, cutoff) and (plain[i] == 0 or math.frexp(table[i])[0] == 0.5) and pf[i] == plain[i] * tab[i]:
+            continue  # exactly on the threshold, by exact arithmetic
+        q = Fraction(float(pf[i])) / Fraction(float(tab[i]))
+        for T, which in ((B, "b"), (C, "c")):
+            if abs(q - T) <= eps * abs(T) and not (q == T and (T == 0 or math.frexp(float(tab[i]))[0] == 0.5)):
+                near[i] = which
+    if not near:
+        return plain
+    f = [Fraction(float(v)) for v in f]
+    if len(set(f)) != len(f):
+        return plain
+    if ans == "IndexError":
+        inside = set(range(len(f)))
+    elif _is_err(ans):
+        return plain
+    else:
+        inside = set()
+        rngs = _ranges_of(ans)
+        if rngs and len(f) < 2:
+            return plain
+        for lo, hi in rngs:
+            if lo not in f:
+                return plain
+            first = f.index(lo)
+            df = f[1] - f[0]
+            last = min(range(first, len(f)), key=lambda j: abs(f[j] + df - hi))
+            inside.update(range(first, last + 1))
+    flat = [Fraction(v) for v in plain]
+    for i, which in near.items():
+        if which == "b":
+            flat[i] = B if i in inside else B * (1 - Fraction(1, 2**30))
+        else:
+            flat[i] = C * (1 + Fraction(1, 2**30)) if i in inside else C
+    return flat
 
 
 _last = {}
@@ -136,7 +257,7 @@ def run_chain(case):
     key = id(case)
     if _last.get("key") == key and _last.get("case") is case:
         return _last["val"]
-    psm, psc = _lk()
+    lk = _pub()
     answers, ops = [], []
     src = case["src"]
     ps = None
@@ -151,6 +272,10 @@ def run_chain(case):
         answers.append(errname(e))
         ops.append(psd_op(src["x"], src["fs"], src.get("ws")))
     objs = [ps]  # objs[0] the initial spectrum, objs[j + 1] the object returned by the j-th applied step
+    # recipes[j]: the fit range (lo, hi) with which the PUBLIC lk.calculate_power_spectrum(x, fs, fit_range=(lo, hi),
+    # num_points_per_block=1) rebuilds the bins of objs[j] from the source data - the raw un-windowed spectrum and what
+    # in_range steps make of it; None for every other object (only used when `_exclude_range` is out of reach)
+    recipes = [(-1.0, float(src["fs"])) if "x" in src and src.get("ws") is None and float(src["fs"]) > 0 else None]
     for st, src_obj, _ in plan(case):
         if objs[0] is None:
             break
@@ -158,19 +283,35 @@ def run_chain(case):
         # step ON THE SAME SOURCE OBJECT, "back" continues from the source of a step after it has been used; whatever
         # a call remembers on / changes in its source (or hands on through copy()) must not show in later answers
         ps = objs[src_obj]
+        recipe = None
         kind = st[0]
         f_in, p_in, nppb_in = ps.frequency.copy(), ps.power.copy(), int(ps.num_points_per_block)
         try:
             if kind == "inrange":
                 lo, hi = st[1], st[2]
-                flo, fhi = ps._fit_range
+                fit = priv(ps, "_fit_range")  # private bookkeeping: handed to the model / compared only while reachable
+                flo, fhi = (0.0, 0.0) if isinstance(fit, str) else fit
                 ops.append(f"c10.inrange {enc_rat(lo)} {enc_rat(hi)} {enc_rat(float(flo))} {enc_rat(float(fhi))} {ratlist(f_in)} {ratlist(p_in)}")
+                if recipes[src_obj] is not None:
+                    recipe = (max(recipes[src_obj][0], lo), min(recipes[src_obj][1], hi))
                 ps = ps.in_range(lo, hi)
-                answers.append(f"{ratlist(ps.frequency)} {ratlist(ps.power)} {enc_rat(float(ps._fit_range[0]))} {enc_rat(float(ps._fit_range[1]))}")
+                fit = "?" if isinstance(fit, str) else priv(ps, "_fit_range")
+                answers.append(f"{ratlist(ps.frequency)} {ratlist(ps.power)} " + ("? ?" if isinstance(fit, str) else f"{enc_rat(float(fit[0]))} {enc_rat(float(fit[1]))}"))
             elif kind == "exclude":
                 rs = [(a, b) for a, b in st[1]]
                 ops.append(f"c10.exclude {enc_list(rs, lambda r: enc_rat(r[0]) + ':' + enc_rat(r[1]))} {ratlist(f_in)} {ratlist(p_in)}")
-                ps = ps._exclude_range(rs)
+                direct = priv(ps, "_exclude_range", None)
+                if direct is not None:
+                    ps = direct(rs)
+                elif recipes[src_obj] is not None:
+                    # the anchored private method is gone: the same exclusion on the same bins through the public call
+                    # (in_range(lo, hi) -> exclusion -> block average of 1, which is the identity)
+                    with warnings.catch_warnings():
+                        warnings.simplefilter("ignore")
+                        ps = lk.calculate_power_spectrum(np.array(src["x"], dtype=float), src["fs"], fit_range=recipes[src_obj], num_points_per_block=1, excluded_ranges=rs)
+                else:
+                    answers.append("?")  # not observable: no private method, no public route to this spectrum
+                    break
                 answers.append(f"{ratlist(ps.frequency)} {ratlist(ps.power)}")
             elif kind == "block":
                 k = st[1]
@@ -184,7 +325,7 @@ def run_chain(case):
                 ops.append(f"c10.pipeline {enc_rat(lo)} {enc_rat(hi)} {enc_list(rs, lambda r: enc_rat(r[0]) + ':' + enc_rat(r[1]))} {k} {ratlist(f_in)} {ratlist(p_in)}")
                 with warnings.catch_warnings():
                     warnings.simplefilter("ignore")
-                    ps = psc.calculate_power_spectrum(np.array(src["x"], dtype=float), src["fs"], fit_range=(lo, hi), num_points_per_block=k, excluded_ranges=rs if rs or st[5] else None)
+                    ps = lk.calculate_power_spectrum(np.array(src["x"], dtype=float), src["fs"], fit_range=(lo, hi), num_points_per_block=k, excluded_ranges=rs if rs or st[5] else None)
                 answers.append(show_ps(ps))
             elif kind == "withspec":
                 m, nppb = st[1], st[2]
@@ -192,15 +333,27 @@ def run_chain(case):
                 ps = ps.with_spectrum(np.ones(m), nppb)
                 answers.append(f"{int(ps.num_points_per_block)} {len(ps.power)}")
             elif kind == "binwidth":
+                recipe = recipes[src_obj]
                 ops.append(f"c10.binwidth {enc_rat(float(ps.sample_rate))} {int(ps.total_sampled_used)} {nppb_in}")
                 answers.append(enc_rat(float(ps.frequency_bin_width)))
             elif kind == "peaks":
+                recipe = recipes[src_obj]
                 table, baseline, cutoff = st[1], st[2], st[3]
                 tab = np.array(table, dtype=float)
-                flat = p_in / tab if len(tab) == len(p_in) else p_in
-                ops.append(f"c10.peaks {nppb_in} {enc_rat(baseline)} {enc_rat(cutoff)} {ratlist(flat)} {ratlist(f_in)}")
-                res = ps.identify_peaks(lambda f: tab, peak_cutoff=cutoff, baseline=baseline)
-                answers.append(enc_list(res, lambda r: enc_rat(float(r[0])) + ":" + enc_rat(float(r[1]))))
+                failed = None
+                try:
+                    res = ps.identify_peaks(lambda f: tab, peak_cutoff=cutoff, baseline=baseline)
+                    ans = enc_list(res, lambda r: enc_rat(float(r[0])) + ":" + enc_rat(float(r[1])))
+                except Exception as e:
+                    failed = e
+                    ans = errname(e)
+                # the normalised spectrum the model works on: the code's own division, except at bins within rounding
+                # of a threshold, which are put on the side the implementation's answer puts them (peaks_flat)
+                flat = peaks_flat(f_in, p_in, table, baseline, cutoff, ans)
+                ops.append(f"c10.peaks {nppb_in} {enc_rat(baseline)} {enc_rat(cutoff)} {enc_list(flat, enc_rat)} {ratlist(f_in)}")
+                if failed is not None:
+                    raise failed
+                answers.append(ans)
             else:
                 raise ValueError(kind)
         except Exception as e:  # mapped to the small enum, compared with the model's error answer
@@ -209,6 +362,7 @@ def run_chain(case):
                 ops.append("c10.missing-op")
             break
         objs.append(ps)
+        recipes.append(recipe)
     _last.update(key=key, case=case, val=(answers, ops))
     return answers, ops
 
@@ -289,6 +443,8 @@ def op_kind(case, i):
 
 
 def agree(case, i, ia, ma):
+    if ia == "?":
+        return True  # a step that could not be observed (private method out of reach, no public route): says nothing
     if _is_err(ia) or _is_err(ma) or ma == "bad-op":
         return ia == ma
     op = op_kind(case, i)
@@ -312,7 +468,10 @@ def agree(case, i, ia, ma):
         npw = int(ti[0]) // max(1, int(ti[1]))
         psc = 2.0 / (fs * npw) * npw * npw * float(np.mean(x * x)) if len(x) else 0.0
         return all(abs(a - b) <= TOL * fmax for a, b in zip(fi, fm)) and all(abs(a - b) <= TOL * psc + 1e-300 for a, b in zip(pi, pm))
-    if op in ("c10.inrange", "c10.exclude", "c10.withspec"):
+    if op == "c10.inrange":
+        # no arithmetic: exact; the private fit-range bookkeeping only where it could be observed
+        return ti[:2] == tm[:2] and (ti[2:] == ["?", "?"] or ti[2:] == tm[2:])
+    if op in ("c10.exclude", "c10.withspec"):
         return ia == ma  # no arithmetic: exact
     if op in ("c10.block", "c10.pipeline"):
         if ti[2] != tm[2]:
@@ -510,8 +669,7 @@ def oracle_peaks(st, state, ans):
         return _STOP if ans == "ValueError" else f"identify_peaks: expected ValueError, got {ans[:60]}"
     if len(table) != len(p):
         return _STOP
-    pf = np.array([float(v) for v in p])
-    flat = pf / np.array(table, dtype=float)
+    flat = peaks_flat(f, p, table, baseline, cutoff, ans)  # the code's quotient; bins within rounding of a threshold as answered
     above = [i for i in range(len(flat)) if flat[i] > cutoff]
     if _is_err(ans):
         if ans == "IndexError" and above and len(f) < 2:
@@ -568,6 +726,8 @@ def oracle_chain(case, ia):
             return "harness-bug: fewer answers than steps"
         ans = ia[idx]
         idx += 1
+        if ans == "?":
+            return None  # the step could not be observed; nothing after it was run
         verdict, state = oracle_step(st, states[src_state], ans, ctx)
         if verdict == _STOP:
             return None
@@ -589,6 +749,8 @@ def nontrivial(case, ia):
     if any(_is_err(a) for a in ia):
         return True
     for st, ans in zip(eff_steps(case), ia[1 if "x" in case["src"] else 0 :]):
+        if ans == "?":
+            break
         if st[0] in ("inrange", "exclude", "block", "pipeline"):
             n_out = 0 if ans.startswith("[]") else ans.split(" ")[0].count(",") + 1
             if n_out > 0:
@@ -759,8 +921,11 @@ def gen_peaks_step(rng, m):
     return baseline, cutoff
 
 
-def peaks_table(rng, p, baseline, cutoff):
-    """table such that p/table ~ chosen level per bin (runs of levels to make contiguous ranges)"""
+def peaks_table(rng, p, baseline, cutoff, exact_ties_only=False):
+    """table such that p/table ~ chosen level per bin (runs of levels to make contiguous ranges).  exact_ties_only (axes
+    with duplicate frequencies, where peaks_flat cannot read the side of a bin off the answer): a bin aimed at a
+    threshold that would land within rounding of it without being on it by exact arithmetic is aimed at the level
+    between the thresholds instead."""
     lv_choices = [0.5 * baseline if baseline > 0 else -1.0, baseline, 0.5 * (baseline + cutoff), cutoff, 2.0 * cutoff + 1.0]
     table = []
     cur = rng.choice(lv_choices)
@@ -771,7 +936,10 @@ def peaks_table(rng, p, baseline, cutoff):
         if v <= 0 or lvl <= 0:
             table.append(1.0 if lvl > 0 else 1e30)
         else:
-            table.append(v / lvl)
+            t = v / lvl
+            if exact_ties_only and lvl in (baseline, cutoff) and not (math.frexp(t)[0] == 0.5 and t * lvl == v):
+                t = v / lv_choices[2]
+            table.append(t)
     return table
 
 
@@ -915,6 +1083,18 @@ def small_scope(quick):
             for lo, hi in ((-1.0, 100.0), (fr[1], fr[-2])):
                 yield {"stream": "small-scope", "op": "chain", "src": {"x": x, "fs": 8.0},
                        "steps": [["pipeline", lo, hi, [[fr[a], fr[b]]], k, True]]}
+    # the exclusion through the PUBLIC entry point alone (lk.calculate_power_spectrum with blocks of one bin; the tie
+    # that remains when the private `_exclude_range` is renamed): every single range and pairs of ranges on the
+    # half-integer grid around the integer axis 0..4 of an 8-point signal sampled at 8 Hz, whole axis and a fit range
+    # between bins
+    x8 = x[:8]
+    vals = [v / 2.0 for v in range(-1, 11)]
+    for lo, hi in itertools.product(vals, vals):
+        for flo, fhi in ((-1.0, 100.0), (0.5, 3.5)):
+            yield {"stream": "small-scope", "op": "chain", "src": {"x": x8, "fs": 8.0}, "steps": [["pipeline", flo, fhi, [[lo, hi]], 1, True]]}
+    two = vals[1::2] if not quick else vals[1::3]
+    for a, b, c, d in itertools.product(two, repeat=4):
+        yield {"stream": "small-scope", "op": "chain", "src": {"x": x8, "fs": 8.0}, "steps": [["pipeline", -1.0, 100.0, [[a, b], [c, d]], 1, True]]}
     # spectra of every length 4..Nmax with every window length 1..N+1
     nmax = 12 if quick else 33
     for n in range(4, nmax + 1):
@@ -1067,7 +1247,8 @@ def _fill_peaks_tables(case):
                 if prev[0] == "inrange":
                     ps = ps.in_range(prev[1], prev[2])
             rng = Rng(case.get("subseed", 0) * 7919 + 13)
-            st[1] = peaks_table(rng, [float(v) for v in ps.power], st[2], st[3])
+            fr = [float(v) for v in ps.frequency]
+            st[1] = peaks_table(rng, [float(v) for v in ps.power], st[2], st[3], exact_ties_only=len(set(fr)) != len(fr))
 
 
 _impl0 = impl
@@ -1093,7 +1274,9 @@ RULE = (
     "one signal per length in every unit 1e-15..1e6), sample rates (dyadic, 1000/3, "
     "log-uniform), windows given in seconds (exact, +-0.3, +-0.49 and +-0.5 sample ties, longer than the data), "
     "scale factors and shifts; chains of 1-6 in_range/_exclude_range/downsampled_by/with_spectrum/bin-width steps "
-    "and calculate_power_spectrum pipelines on computed spectra and on injected arrays, with range edges placed on "
+    "and calculate_power_spectrum pipelines (through the exported lk.calculate_power_spectrum; small scope: every "
+    "single exclusion range and pairs of ranges on the half-integer grid around the integer axis of an 8-point signal, "
+    "blocks of one bin) on computed spectra and on injected arrays, with range edges placed on "
     "a bin, one ulp beside it, between bins and outside the spectrum, overlapping/inverted exclusion ranges, ranges "
     "that cut bins out of the middle of the axis; later steps of a chain come back to the ranges of earlier ones "
     "(all / some / mixed with new ones, preferably once a block average has changed the axis under them), steps are "
@@ -1153,6 +1336,8 @@ def extra_coverage(results):
         "signal_sizes": sizes,
         "window_kinds": windows,
         "peak_results": peaks,
+        "private_names_reachable": dict(sorted(_reach.items())),
+        "steps_not_observable": sum(1 for r in results for a in r["impl"] if a == "?"),
         "dropped_for_margin": 0,
         "exhaustive": False,
         "exhaustive_note": "the small-scope stream enumerates its finite space completely; the random streams do not",
